@@ -421,7 +421,7 @@ func checkArr2(prop string) func(a Arr, st *stats.Collector) error {
 					for _, order := range []mcap.ReadOrder{mcap.FileOrder, mcap.LogTimeOrder, mcap.ReverseLogTimeOrder} {
 						opts := []mcap.ReadOpt{mcap.InOrder(order), mcap.AfterNanos(s), mcap.BeforeNanos(e)}
 						if topics != nil {
-							opts = append(opts, mcap.WithTopics(topics))
+							opts = append(opts, mc.Topics(topics))
 						}
 						label := fmt.Sprintf("%s [%d,%d) topics=%v order=%d", producer, s, e, topics, order)
 						r := readOrdered(file, opts...)
@@ -509,7 +509,7 @@ func checkArr3(a Arr, st *stats.Collector) error {
 			opts = append(opts, mcap.AfterNanos(s), mcap.BeforeNanos(e))
 		}
 		if topics != nil {
-			opts = append(opts, mcap.WithTopics(topics))
+			opts = append(opts, mc.Topics(topics))
 		}
 		label := fmt.Sprintf("%s topics=%v window=%v order=%d", producer, topics, window, order)
 		r := readOrdered(file, opts...)
@@ -634,7 +634,7 @@ func checkC03(c C03Case, st *stats.Collector) error {
 	for _, order := range []mcap.ReadOrder{mcap.LogTimeOrder, mcap.ReverseLogTimeOrder} {
 		opts := []mcap.ReadOpt{mcap.InOrder(order)}
 		if c.Topics != nil {
-			opts = append(opts, mcap.WithTopics(c.Topics))
+			opts = append(opts, mc.Topics(c.Topics))
 		}
 		if c.Window {
 			opts = append(opts, mcap.AfterNanos(c.S), mcap.BeforeNanos(c.E))
